@@ -101,6 +101,18 @@ def r1(ctx, F, sfx, quiet=False):
         ctx.bad('C16.R1', 'formula' + sfx, repr(sr)[:200], 'k*sqrt(max radius^2)', w, key_extra='radicand')
         return None
     ctx.check('C16.R1', 'factor' + sfx, k >= 2, 'safety_radius = %s*sqrt(M)' % k, 'k >= 2', w, key_extra='factor')
+    # two ways of writing "the largest radius^2": max over the mapped values, or the radius^2 of the vertex that is largest by radius^2
+    key_path = []
+    base = M
+    while isinstance(base, nf.Atom) and base.kind == 'app' and base.name == 'field' and len(base.args) == 2:
+        key_path.insert(0, base.args[1])
+        base = base.args[0]
+        if isinstance(base, I.Sym):
+            base = base.atom
+    while key_path and str(key_path[0]) in ('Some', '0', 'Some.0'):
+        key_path.pop(0)
+    if key_path:
+        M = base
     chain, src = stream_chain(M)
     names = [n for n, _ in chain]
     # reduction
@@ -109,7 +121,7 @@ def r1(ctx, F, sfx, quiet=False):
     if red[0] in ('max_by', 'min_by'):
         # max_by with the natural order, or min_by with the reversed order, is a maximum
         cl = red[1][0] if red[1] else None
-        nat = comparator_is_natural(ctx, F, cl)
+        nat = comparator_is_natural(ctx, F, cl, key_path)
         is_max = (red[0] == 'max_by' and nat == 'natural') or (red[0] == 'min_by' and nat == 'reversed')
         ctx.check('C16.R1', 'reduction-is-maximum' + sfx, is_max, '%s with comparator: %s' % (red[0], nat), 'maximum w.r.t. the natural order of f64', w, key_extra='comparator')
     elif red[0] == 'fold' and len(red[1]) == 2 and repr(red[1][0]) == 'const:f64:-inf' and repr(red[1][1]) in ('fn core::f64::<impl f64>::max', 'fn std::f64::<impl f64>::max'):
@@ -124,6 +136,8 @@ def r1(ctx, F, sfx, quiet=False):
     bad = [n for n in names[1:] if n not in ('map', 'iter', 'into_iter', 'copied', 'cloned', 'deref')]
     ctx.check('C16.R1', 'over-all-vertices' + sfx, not bad and names[-1:] == ['iter'] and repr(src).endswith('.vertices'), 'stream %s over %r' % (' <- '.join(names), src), 'every vertex of the cell, unfiltered', w, key_extra='stream')
     # the mapped quantity is the vertex radius^2 field
+    if key_path:
+        ctx.check('C16.R1', 'mapped-quantity' + sfx, [str(x) for x in key_path] == ['radius2'] and 'map' not in names, 'key of the selected vertex: %s' % '.'.join(str(x) for x in key_path), 'the vertex radius^2', w, key_extra='mapped')
     for n, a in chain:
         if n == 'map':
             cl = a[0]
@@ -132,12 +146,22 @@ def r1(ctx, F, sfx, quiet=False):
     return k, field
 
 
-def comparator_is_natural(ctx, F, cl):
+def comparator_is_natural(ctx, F, cl, key_path=()):
     if not isinstance(cl, I.St) or not str(cl.adt).startswith('closure:'):
         return 'comparator is not a closure'
-    a, b = RF.sym('cmp.a'), RF.sym('cmp.b')
     ip = I.Interp(F)
-    ra, rb = ip.ref_to(a, '&f64'), ip.ref_to(b, '&f64')
+    if key_path:
+        # elements are vertices, compared by the key (the field path read from the selected element afterwards)
+        va = I.Sym(nf.sym_atom('cmp.a'), 'voronoi::convex_cell::Vertex')
+        vb = I.Sym(nf.sym_atom('cmp.b'), 'voronoi::convex_cell::Vertex')
+        a, b = va, vb
+        for f in key_path:
+            a, b = I.get_field(a, f), I.get_field(b, f)
+        a, b = I.frozen(a), I.frozen(b)
+        ra, rb = ip.ref_to(ip.ref_to(va, '&voronoi::convex_cell::Vertex'), '&&voronoi::convex_cell::Vertex'), ip.ref_to(ip.ref_to(vb, '&voronoi::convex_cell::Vertex'), '&&voronoi::convex_cell::Vertex')
+    else:
+        a, b = RF.sym('cmp.a'), RF.sym('cmp.b')
+        ra, rb = ip.ref_to(a, '&f64'), ip.ref_to(b, '&f64')
     try:
         v = ip.call_closure(cl, None, I.tup(ra, rb), 'std::cmp::Ordering')
     except I.Diverge:
@@ -150,9 +174,9 @@ def comparator_is_natural(ctx, F, cl):
         return 'comparator does not call partial_cmp exactly once (%s)' % s[:80]
     x, y = [I.frozen(z) for z in ev[0].args]
     flipped = 'reverse' in s
-    if x == a and y == b:
+    if (x == a and y == b) or (key_path and (repr(x), repr(y)) == (repr(a), repr(b))):
         return 'reversed' if flipped else 'natural'
-    if x == b and y == a:
+    if (x == b and y == a) or (key_path and (repr(x), repr(y)) == (repr(b), repr(a))):
         return 'natural' if flipped else 'reversed'
     return 'arguments %r, %r' % (x, y)
 
